@@ -224,6 +224,14 @@ def run_rm(ctx, p):
                     xs = None
                     break
                 xs.append(0.5 * (br[0] + br[1]))
+            if xs is None and kind == "contact" and st["rl"] == st["rr"] and st["pl"] == st["pr"] and st["gl"] == st["gr"]:
+                # equal thermodynamic states on the two sides of the membrane: the two star states coincide and the contact
+                # carries no jump at all (nothing to locate, nothing to balance)
+                sr = ctx.call(s, np.array([xh + w]), t)
+                if all(abs(float(sr[f][0]) - float(sl[f][0])) <= 1e-12 * max(abs(float(sl[f][0])), abs(float(sr[f][0])), 1e-300)
+                       for f in ("density", "velocity", "pressure", "specific_internal_energy")):
+                    ctx.count("contact_without_jump:" + name)
+                    continue
             if xs is None:
                 ctx.count("wave_not_bracketed:" + name)
                 ctx.observe("rh.located", name, False, branch="%s of %s" % (kind, pat),
